@@ -50,6 +50,11 @@ def main():
             new_src = src.replace(m["old"], m["new"])
         try:
             open(path, "w").write(new_src)
+            for extra in m.get("also", []):
+                ep = os.path.join(REPO, extra["file"])
+                es = open(ep).read()
+                assert es.count(extra["old"]) == 1, "also-anchor"
+                open(ep, "w").write(es.replace(extra["old"], extra["new"]))
             outcome = {}
             for prop in m.get("expect", []):
                 r = sh("./vcheck %s --tier %s" % (prop, m.get("tier", "quick")), cwd=VERIF)
